@@ -103,13 +103,13 @@ def _(self, client: Ref("BaseClient")) -> Ref("ClearedMarket"):
 
 # the abstract properties of a simulated order are the simulator's figures (link between the abstract fields of
 # a_schema.py and the property bodies, checked on the bodies themselves)
-@contract("flumine/order/order.py::BetfairOrder.average_price_matched", tags=["C08", "C16"])
+@contract("flumine/order/order.py::BetfairOrder.average_price_matched", tags=["C08", "C16-in-main"])
 def _(self) -> REAL:
     requires("simulated", self._simulated)
     ensures("is_the_simulators_figure", result == self.simulated.average_price_matched)
 
 
-@contract("flumine/order/order.py::BetfairOrder.size_matched", tags=["C08", "C16"])
+@contract("flumine/order/order.py::BetfairOrder.size_matched", tags=["C08", "C16-in-main"])
 def _(self) -> REAL:
     requires("simulated", self._simulated)
     ensures("is_the_simulators_figure", result == self.simulated.size_matched)
